@@ -78,4 +78,4 @@ LEVEL_TEXT = ("pmem.c itself over a user allocator table that may fail (this jus
 LEVEL_NOTE = ("Coverage is a checked static fact (unit alloc_coverage, lib/alloc_scan.py, re-computed from /repo on every run): every function of the configured sources that calls p_malloc/p_malloc0/p_realloc/p_strdup "
               "directly is listed by a unit of this check; the one stated exception is p_ipc_unix_get_temp_dir (System V / IRIX key path, never taken by the configured POSIX code). A new allocating function without a unit makes the check UNDECIDED. "
               "Indirect allocation through p_list_append/prepend is covered where the caller owns freshly allocated data (INI parse and getters); hash-table listings only link existing pointers. "
-              "Trusted: env models of the OS calls each unit uses. Bounded units inherit their bounds (trees H<=3, lists/tables L<=4, INI one 4-byte line, names of a few characters). The input regions of the known findings of C07 (existing segment of size 0) and C08 (existing buffer opened with a smaller size) are excluded from the shared units here; they are decided and reported under C07/C08.")
+              "Trusted: env models of the OS calls each unit uses. Bounded units inherit their bounds (trees H<=3, lists/tables L<=4, INI one 4-byte line, names of a few characters). The input regions of the known findings of C07 (existing segment of size 0) and C08 (existing buffer opened with a smaller size) are excluded from the shared units here; they are decided and reported under C07/C08. Functions that allocate only through p_list_append are not in that static list; of those, the hash-table listing functions have their own units (ht_listing_allocfail_*: table object of 2 buckets, <= 3 entries, every append may fail).")
